@@ -448,3 +448,173 @@ pub fn run(args: &Args) -> Report {
     rep.count("programs", i);
     rep
 }
+
+// ---------------------------------------------------------------------------------------------
+// Owner dies INSIDE add / remove: single-threaded crash-point enumeration at atomic-operation
+// granularity. The hook counts the atomic operations of the victim's call and unwinds out of the
+// k-th one (nothing after it happens: the owner is dead from there on); a survivor then recovers
+// the dead owner and refreshes. For every k: no entry of the dead owner is reported afterwards,
+// the snapshot is exactly the live owners' entries, every reported entry is a completely written
+// one, and the slot is reusable.
+
+#[cfg(iceoryx2_verif)]
+mod midop {
+    use super::*;
+    use iceoryx2_bb_concurrency::verif::{set_hook, OpKind, Phase};
+    use std::sync::atomic::{AtomicU64, Ordering::Relaxed};
+
+    static COUNT: AtomicU64 = AtomicU64::new(0);
+    static DIE_AT: AtomicU64 = AtomicU64::new(0);
+    struct Died;
+
+    fn hook(_p: Phase, _k: OpKind, _a: usize, _w: bool) {
+        let c = COUNT.fetch_add(1, Relaxed) + 1;
+        if c == DIE_AT.load(Relaxed) {
+            std::panic::resume_unwind(Box::new(Died));
+        }
+    }
+
+    /// runs `f` with the hook armed; Ok(number of hook calls) if it completed, Err(()) if the owner died at `die_at`
+    fn armed<R>(die_at: u64, f: impl FnOnce() -> R) -> Result<(R, u64), ()> {
+        COUNT.store(0, Relaxed);
+        DIE_AT.store(die_at, Relaxed);
+        set_hook(Some(hook));
+        let r = std::panic::catch_unwind(std::panic::AssertUnwindSafe(f));
+        set_hook(None);
+        match r {
+            Ok(v) => Ok((v, COUNT.load(Relaxed))),
+            Err(p) => {
+                if p.downcast_ref::<Died>().is_some() {
+                    Err(())
+                } else {
+                    std::panic::resume_unwind(p)
+                }
+            }
+        }
+    }
+
+    fn snapshot<const K: usize, const CAP: usize>(c: &FixedSizeContainer<Entry<K>, CAP>, st: &mut ContainerState<Entry<K>>) -> (Vec<u64>, bool) {
+        let _ = unsafe { c.update_state(st) };
+        let mut ids = Vec::new();
+        let mut intact = true;
+        st.for_each(|_, e: &Entry<K>| {
+            intact &= e.ok();
+            ids.push(e.id);
+            iceoryx2_bb_elementary::CallbackProgression::Continue
+        });
+        ids.sort();
+        (ids, intact)
+    }
+
+    /// one configuration: `prefix` live adds (and `holes` removals) first, then the victim operation
+    fn case<const K: usize, const CAP: usize>(rep: &mut Report, prefix: usize, holes: usize, victim_removes: bool) {
+        let live = OwnerId::new(7).unwrap();
+        let dead = OwnerId::new(DEAD).unwrap();
+        // dry run to learn how many hook calls the victim operation makes in this configuration
+        let mut k = 1u64;
+        loop {
+            let c = FixedSizeContainer::<Entry<K>, CAP>::new();
+            let mut old_reader = c.get_state();
+            let mut model: Vec<u64> = Vec::new();
+            let mut handles = Vec::new();
+            for n in 0..prefix {
+                let id = 100 + n as u64;
+                if let Ok((_, h)) = c.add(Entry::<K>::new(id), live) {
+                    handles.push((id, h));
+                    model.push(id);
+                }
+            }
+            for _ in 0..holes.min(handles.len()) {
+                let (id, h) = handles.remove(0);
+                let _ = unsafe { c.remove(h, ReleaseMode::Default) };
+                model.retain(|x| *x != id);
+            }
+            let _ = snapshot(&c, &mut old_reader); // a reader that saw the state before the victim acted
+            let vid = 9_000_000 + k;
+            // the victim's completed add when it is the removal that is interrupted
+            let vh = if victim_removes {
+                match c.add(Entry::<K>::new(vid), dead) {
+                    Ok((_, h)) => Some(h),
+                    Err(_) => None,
+                }
+            } else {
+                None
+            };
+            if victim_removes && vh.is_none() {
+                return; // container full: nothing to interrupt in this configuration
+            }
+            let r = if let Some(h) = vh { armed(k, || { let _ = unsafe { c.remove(h, ReleaseMode::Default) }; true }) } else { armed(k, || c.add(Entry::<K>::new(vid), dead).is_ok()) };
+            let died = r.is_err();
+            rep.execs += 1;
+            // the survivor cleans up after the dead owner, then everybody refreshes
+            unsafe { c.recover(dead, |_| true, ReleaseMode::Default) };
+            let mut fresh = c.get_state();
+            let opn = if victim_removes { "remove" } else { "add" };
+            let what = format!("{} interrupted before its atomic operation #{} (capacity {}, {} live entries, {} freed slots, entry size {} bytes)", if victim_removes { "remove" } else { "add" }, k, CAP, model.len(), holes.min(prefix), 8 + 8 * K);
+            for (name, st) in [("a reader that already had a snapshot", &mut old_reader), ("a fresh reader", &mut fresh)] {
+                let (ids, intact) = snapshot(&c, st);
+                let mut exp = model.clone();
+                exp.sort();
+                if !intact {
+                    rep.violation("torn_entry_after_recover", format!("C10:midop:{}:torn_entry_after_recover", opn), format!("{}: after recover, {} sees an entry that was never completely written: {:?}", what, name, ids), Json::obj());
+                } else if ids.iter().any(|i| !exp.contains(i)) {
+                    rep.violation("ghost_entry_after_recover", format!("C10:midop:{}:ghost_entry_after_recover", opn), format!("{}: after recover of the dead owner, {} reports {:?}, registered are {:?}", what, name, ids, exp), Json::obj().set("replay_args", "c10 --part midop"));
+                } else if ids != exp {
+                    rep.violation("entry_lost_after_recover", format!("C10:midop:{}:entry_lost_after_recover", opn), format!("{}: after recover, {} reports {:?}, registered are {:?}", what, name, ids, exp), Json::obj());
+                }
+            }
+            // the slot is usable again and shows exactly the new value
+            if model.len() < CAP {
+                let nid = 5_000_000 + k;
+                match c.add(Entry::<K>::new(nid), live) {
+                    Ok(_) => {
+                        let (ids, intact) = snapshot(&c, &mut fresh);
+                        if !intact || !ids.contains(&nid) || ids.len() != model.len() + 1 {
+                            rep.violation("slot_not_reusable_after_recover", format!("C10:midop:{}:slot_not_reusable_after_recover", opn), format!("{}: a new add after the recover gives the snapshot {:?} (intact {})", what, ids, intact), Json::obj());
+                        }
+                    }
+                    Err(e) => rep.violation("slot_not_reusable_after_recover", format!("C10:midop:{}:slot_not_reusable_after_recover", opn), format!("{}: add after recover failed with {:?}", what, e), Json::obj()),
+                }
+            }
+            if died {
+                rep.nontrivial += 1;
+                rep.distinct(vkit::fnv_str(&format!("{}{}{}{}{}{}", K, CAP, prefix, holes, victim_removes, k)));
+                rep.count("owner_died_inside_operation", 1);
+                k += 1;
+            } else {
+                rep.count("victim_operation_atomic_ops_max", 0);
+                break; // k is past the last atomic operation: the call completed
+            }
+        }
+    }
+
+    pub fn run(_args: &Args) -> Report {
+        let mut rep = Report::new();
+        macro_rules! grid {
+            ($k:literal, $cap:literal) => {
+                for prefix in 0..=$cap {
+                    for holes in 0..=prefix {
+                        case::<$k, $cap>(&mut rep, prefix, holes, false);
+                        case::<$k, $cap>(&mut rep, prefix, holes, true);
+                    }
+                }
+            };
+        }
+        grid!(0, 1);
+        grid!(0, 2);
+        grid!(3, 1);
+        grid!(3, 2);
+        grid!(15, 3);
+        rep.sample(Json::obj().set("victim_operations", "add, remove").set("death_points", "before every atomic operation of the call").set("capacities", "1-3").set("entry_sizes", "8, 32, 128 bytes"));
+        rep
+    }
+}
+
+#[cfg(iceoryx2_verif)]
+pub fn run_midop(args: &Args) -> Report {
+    midop::run(args)
+}
+#[cfg(not(iceoryx2_verif))]
+pub fn run_midop(_args: &Args) -> Report {
+    Report::new()
+}
